@@ -7,6 +7,7 @@ import (
 
 	"golang.org/x/net/html"
 
+	pr "github.com/benoitkugler/webrender/css/properties"
 	bo "github.com/benoitkugler/webrender/html/boxes"
 
 	"verif/internal/fw"
@@ -35,6 +36,14 @@ type monitor struct {
 	areas     []bo.Box        // the footnote areas formed and walked
 	inArea    bool
 	areaDepth int
+
+	// running elements (css-gcpm-3 §1.2): placeholder boxes (own position running()) met during the walk
+	runPending []bo.Box     // placeholders whose content is not walked yet
+	runPlace   map[int]int  // running element id -> number of placeholder boxes
+	curRun     map[int]bool // running element whose area (its box as placed in a margin box) is being walked
+	runDepth   int
+	runInner   map[bo.Box]bool // running boxes met again inside the item wrapper of the same element
+	skipTop    bo.Box          // copy of such a box: already counted through its wrapper
 }
 
 func (m *monitor) fail(sig, format string, a ...any) {
@@ -44,7 +53,7 @@ func (m *monitor) fail(sig, format string, a ...any) {
 	msg := fmt.Sprintf(format, a...)
 	tree := dump(m.b.root)
 	for i, a := range m.areas {
-		tree += fmt.Sprintf("\n  footnote area %d: %s", i, dump(a))
+		tree += fmt.Sprintf("\n  footnote / running element area %d: %s", i, dump(a))
 	}
 	m.res.Fail(sig, fmt.Sprintf("%s\n  document: %s\n  box tree: %s", msg, m.in.HTML, tree))
 }
@@ -81,6 +90,7 @@ func (m *monitor) run() {
 	root := m.b.root
 	m.topmost = map[string][]bo.Box{}
 	m.calls, m.fmarkers, m.reached = map[int]int{}, map[int]int{}, map[bo.Box]bool{}
+	m.runPlace, m.runInner = map[int]int{}, map[bo.Box]bool{}
 	if root == nil {
 		m.fail("no-root", "BuildFormattingStructure returned no root box")
 		return
@@ -89,11 +99,26 @@ func (m *monitor) run() {
 		m.fail("root-kind", "the root box is a %s, not a block-level box", desc(root))
 	}
 	m.topmost[ownerKey(root)] = append(m.topmost[ownerKey(root)], root)
+	if !m.prescanRunning(root) {
+		return
+	}
 	m.walk(root, nil)
 	if m.res.Verdict == fw.Violation {
 		return
 	}
-	m.walkFootnotes()
+	// the content of running elements and of footnotes is formed where layout places it; each may
+	// hold the other
+	for i := 0; i < 64 && (len(m.runPending) > 0 || len(m.pending) > 0); i++ {
+		m.walkRunning()
+		if m.res.Verdict == fw.Violation {
+			return
+		}
+		m.walkFootnoteAreas()
+		if m.res.Verdict == fw.Violation {
+			return
+		}
+	}
+	m.checkFootnoteList()
 	if m.res.Verdict == fw.Violation {
 		return
 	}
@@ -202,9 +227,52 @@ func (m *monitor) walk(b bo.Box, p bo.Box) {
 		// content of that pseudo-element -- webrender builds the text of a ::footnote-marker from
 		// the footnote's own box --, never a principal box of the element)
 		inPseudo := f.PseudoType == "" && p.Box().PseudoType != "" && p.Box().Element == f.Element
-		if ownerKey(b) != ownerKey(p) && !inPseudo {
+		// (the boxes of a running element count where the element is placed -- its area --, not where
+		// the placeholder stands)
+		if ownerKey(b) != ownerKey(p) && !inPseudo && !(e.running && !m.curRun[e.n.ID]) && b != m.skipTop {
 			m.topmost[ownerKey(b)] = append(m.topmost[ownerKey(b)], b)
 		}
+	}
+	if boxRunning(b) {
+		// css-gcpm-3 §1.2: the box of a running element is a placeholder: nothing is laid out here
+		// (layout hands it to the page's running elements), webrender's anonymous-box passes leave
+		// its content alone until it is placed in a margin box.  The parent's clauses see it as one
+		// out-of-flow box; its content is walked in walkRunning, formed as layout forms it.
+		if !e.running || f.PseudoType != "" {
+			m.fail("running-of-non-running", "%s has position running() but n%d%s is no running element (position %q)", desc(b), e.n.ID, map[bool]string{true: "::" + f.PseudoType}[f.PseudoType != ""], e.n.Pos)
+			return
+		}
+		if m.curRun[e.n.ID] {
+			// webrender gives the anonymous block it wraps around an inline-level flex / grid item the
+			// item's own style, position included: the running box of the element is met again inside
+			// the wrapper, still unformed; same element, same placeholder: walked in a further area
+			m.res.Count("running_item_wrapper_unwrapped", 1)
+			m.runInner[b] = true
+			m.runPending = append(m.runPending, b)
+			return
+		}
+		m.runPlace[e.n.ID]++
+		m.res.Count("running_placeholders", 1)
+		if p != nil {
+			switch pk := kindOf(p); {
+			case pk == kLine || pk == kInline:
+				m.res.Count("running_placeholder_in_inline_fc", 1)
+			case isBlockContainerKind(pk):
+				m.res.Count("running_placeholder_in_block_fc", 1)
+			case pk == kFlex || pk == kInlineFlex || isGridKind(pk):
+				m.res.Count("running_placeholder_flex_grid_item", 1)
+			default:
+				m.res.Count("running_placeholder_in_table_part", 1)
+			}
+		}
+		if len(m.curRun) > 0 {
+			m.res.Count("running_nested", 1)
+		}
+		if m.inArea {
+			m.res.Count("running_in_footnote", 1)
+		}
+		m.runPending = append(m.runPending, b)
+		return
 	}
 
 	kids := children(b)
@@ -234,8 +302,20 @@ func (m *monitor) walk(b bo.Box, p bo.Box) {
 			if len(kids) > 0 {
 				m.res.Count("block_containers_block_fc", 1)
 			}
+			nRun, nAnonLine := 0, 0
+			for _, c := range kids {
+				if boxRunning(c) {
+					nRun++
+				} else if isAnon(c, b) && kindOf(c) == kBlock && soleLine(c) {
+					nAnonLine++
+				}
+			}
+			if nRun > 0 && nAnonLine > 0 && nRun+nAnonLine == len(kids) {
+				// the only block-level children are running elements, the rest is inline content
+				m.res.Count("running_only_blocks_beside_inline_content", 1)
+			}
 			for i, c := range kids {
-				if ck := kindOf(c); !isBlockLevelKind(ck) {
+				if ck := kindOf(c); !isBlockLevelKind(ck) && !boxRunning(c) {
 					m.fail("block-container-child", "child %d of block container %s is %s: not a block-level box (and the container holds no line box)", i, desc(b), desc(c))
 					return
 				}
@@ -253,7 +333,7 @@ func (m *monitor) walk(b bo.Box, p bo.Box) {
 		for i, c := range kids {
 			ck := kindOf(c)
 			switch {
-			case isInlineLevelKind(ck):
+			case isInlineLevelKind(ck), boxRunning(c):
 			case isBlockLevelKind(ck) && boxOutOfFlow(c):
 				m.res.Count("out_of_flow_in_inline_fc", 1)
 			case isBlockLevelKind(ck):
@@ -271,6 +351,9 @@ func (m *monitor) walk(b bo.Box, p bo.Box) {
 	case k == kFlex, k == kInlineFlex, k == kGrid, k == kInlineGrid:
 		// css-flexbox-1 §4, css-grid §6.1: every child of the container is a blockified item
 		for i, c := range kids {
+			if boxRunning(c) {
+				continue // out of flow, no item (as css-flexbox-1 §4 says of absolutely positioned children)
+			}
 			if ck := kindOf(c); !isBlockLevelKind(ck) {
 				m.fail("item-not-blockified", "child %d of %s container %s is %s: items must be block-level (blockified) boxes", i, k, desc(b), desc(c))
 				return
@@ -463,6 +546,12 @@ func (m *monitor) checkTable(b bo.Box, groups []bo.Box) {
 			m.fail("column-gridx", "column group %d of %s has GridX %d, expected %d", gi, desc(b), g.GridX, x)
 			return
 		}
+		if boxRunning(g) {
+			// placeholder of a running column group: its content is formed and judged where it is
+			// placed; the columns after it are numbered from wherever webrender resumes
+			resync = true
+			continue
+		}
 		for ci, c := range g.Children {
 			if kindOf(c) != kCol {
 				m.fail("table-improper-child", "child %d of column group %d of %s is %s", ci, gi, desc(b), desc(c))
@@ -521,10 +610,16 @@ func (m *monitor) checkTable(b bo.Box, groups []bo.Box) {
 		rows := children(g)
 		type slot struct{ r, c int }
 		occ := map[slot]string{}
+		if boxRunning(g) {
+			continue // placeholder of a running row group: formed and judged where it is placed
+		}
 		for ri, row := range rows {
 			if kindOf(row) != kRow {
 				m.fail("table-improper-child", "child %d of %s is %s", ri, desc(g), desc(row))
 				return
+			}
+			if boxRunning(row) {
+				continue // placeholder of a running row
 			}
 			xcur := 0
 			for ci, cell := range children(row) {
@@ -665,6 +760,24 @@ func (m *monitor) checkElements() {
 				m.fail("footnote-call-count", "%s has %d ::footnote-call boxes in the tree, expected exactly one", what, c)
 				return
 			}
+		}
+		if e.running {
+			// its boxes are the ones of its area, a block container (as a margin box is); the
+			// placeholder of an inline-level item of a flex / grid container may come in the item's
+			// anonymous block
+			if !isFlexContainerDisplay(pcd) && !isGridContainerDisplay(pcd) {
+				pcd = "block"
+			}
+			what = fmt.Sprintf("running element n%d (specified display %s, position %q)", n.ID, specifiedDisplay(n), n.Pos)
+			if c := m.runPlace[n.ID]; c != 1 {
+				m.fail("running-placeholder-count", "%s has %d boxes with position running() in the tree, expected exactly one", what, c)
+				return
+			}
+			m.res.Count("running_elements_checked", 1)
+			m.res.Count("running_display_"+strings.ReplaceAll(e.cd, " ", "_"), 1)
+		} else if c := m.runPlace[n.ID]; c != 0 {
+			m.fail("running-of-non-running", "%s is no running element but has %d boxes with position running()", what, c)
+			return
 		}
 		m.checkOwner(key, cd, e.replaced, pcd, what)
 		if m.res.Verdict == fw.Violation {
@@ -863,8 +976,8 @@ func (m *monitor) checkTokens() {
 	}
 	reorder := false
 	for _, e := range m.list {
-		if e.n.Float == "footnote" {
-			reorder = true // footnote content is moved to the footnote area
+		if e.n.Float == "footnote" || isRunningNode(e.n) {
+			reorder = true // footnote content is moved to the footnote area, running elements to their own
 		}
 		for _, d := range []string{specifiedDisplay(e.n), pd(e.n.Before), pd(e.n.After)} {
 			if d == "table-header-group" || d == "table-footer-group" || d == "table-caption" {
@@ -1029,8 +1142,8 @@ func (m *monitor) checkCall(b bo.Box, k kind, e *einfo) bool {
 // CreateAnonymousBox over a deep copy of a block box whose children are the footnote boxes, here
 // an anonymous block of the root box) and walks it with all the clauses; calls met inside a
 // footnote (nested footnotes) give a further area.
-func (m *monitor) walkFootnotes() {
-	for len(m.pending) > 0 && m.areaDepth < 64 {
+func (m *monitor) walkFootnoteAreas() {
+	if len(m.pending) > 0 && m.areaDepth < 64 {
 		m.areaDepth++
 		batch := map[bo.Box]bool{}
 		for _, fb := range m.pending {
@@ -1046,6 +1159,9 @@ func (m *monitor) walkFootnotes() {
 		}
 		area := bo.CreateAnonymousBox(bo.BlockBoxAnonymousFrom(m.b.root, kids))
 		m.areas = append(m.areas, area)
+		if !m.prescanRunning(area) {
+			return
+		}
 		m.res.Count("footnote_areas", 1)
 		m.res.Count("footnotes_walked", int64(len(kids)))
 		m.inArea = true
@@ -1055,6 +1171,10 @@ func (m *monitor) walkFootnotes() {
 			return
 		}
 	}
+}
+
+// checkFootnoteList: every entry of the footnotes output is accounted for.
+func (m *monitor) checkFootnoteList() {
 	// list entries no call leads to: never laid out.  webrender leaves them for footnote elements
 	// whose call was removed with its parent's content (children of replaced elements, §17.2.1
 	// rules 1.1/1.2); counted.  One for a display:none element is a box of a display:none subtree.
@@ -1077,4 +1197,120 @@ func (m *monitor) walkFootnotes() {
 			return
 		}
 	}
+}
+
+// boxRunning: the box's own computed position is running() (css-gcpm-3 §1.2).
+func boxRunning(b bo.Box) bool {
+	st := b.Box().Style
+	return st != nil && st.GetPosition().Bool
+}
+
+// walkRunning forms the content of every running element met so far the way layout does when
+// `content: element(name)` places it in a page margin box (boxes.ContentToBoxes: Deepcopy of the box,
+// position set to static; layout.makeMarginBoxes: CreateAnonymousBox over the margin box, a block
+// container -- here an anonymous block of the root box) and walks it with all the clauses.  Running
+// elements met inside give further areas.
+func (m *monitor) walkRunning() {
+	for len(m.runPending) > 0 && m.runDepth < 4096 {
+		m.runDepth++
+		pb := m.runPending[0]
+		m.runPending = m.runPending[1:]
+		e := m.info(pb.Box().Element)
+		cp := bo.Deepcopy(pb)
+		cp.Box().Style = cp.Box().Style.Copy() // (layout sets the shared style; the copy keeps the observed tree as it was)
+		cp.Box().Style.SetPosition(pr.BoolString{String: "static"})
+		area := bo.CreateAnonymousBox(bo.BlockBoxAnonymousFrom(m.b.root, []bo.Box{cp}))
+		m.areas = append(m.areas, area)
+		m.res.Count("running_areas", 1)
+		inArea := m.inArea
+		m.inArea = false
+		m.curRun = map[int]bool{e.n.ID: true}
+		m.skipTop = nil
+		if m.runInner[pb] {
+			m.skipTop = cp
+		}
+		if !m.prescanRunning(area) {
+			return
+		}
+		m.walk(area, nil)
+		m.curRun, m.skipTop = nil, nil
+		m.inArea = inArea
+		if m.res.Verdict == fw.Violation {
+			return
+		}
+	}
+}
+
+// prescanRunning looks, before a tree is walked, for a running element that stands in it in several
+// pieces.  A running box is a placeholder: the anonymous-box passes must leave it whole.  webrender
+// (known open finding F-C09-running-inline-split-by-block, own signature) lets BlockInInline split a
+// running *inline* box around a block-level box inside it: the block lands in the flow with its
+// content unformed, the running element is kept in two halves.  The signature is only used when the
+// model says that the element is a running inline element holding an in-flow block-level box.
+func (m *monitor) prescanRunning(tree bo.Box) bool {
+	count := map[*einfo]int{}
+	var order []*einfo
+	var rec func(b bo.Box)
+	rec = func(b bo.Box) {
+		if boxRunning(b) {
+			if e := m.info(b.Box().Element); e != nil && b.Box().PseudoType == "" {
+				if count[e] == 0 {
+					order = append(order, e)
+				}
+				count[e]++
+			}
+			return
+		}
+		if t, ok := tableOf(b); ok {
+			for _, g := range t.ColumnGroups {
+				rec(g)
+			}
+		}
+		for _, c := range children(b) {
+			rec(c)
+		}
+	}
+	rec(tree)
+	for _, e := range order {
+		if count[e] > 1 && e.running && kindForDisplay(e.cd) == kInline && !e.replaced && m.blockInInline(e) {
+			if tree != m.b.root {
+				m.areas = append(m.areas, tree)
+			}
+			m.fail("running-inline-split-by-block", "the running inline element n%d (display %s, position %q) stands in the tree as %d boxes: it was split around the in-flow block-level box inside it, which now stands in the flow (a running element is a placeholder, formed only where it is placed)", e.n.ID, e.cd, e.n.Pos, count[e])
+			return false
+		}
+	}
+	return true
+}
+
+// blockInInline: the model's inline element e holds, directly or through in-flow inline elements, an
+// in-flow block-level box (element or ::before/::after).
+func (m *monitor) blockInInline(e *einfo) bool {
+	blockish := func(d string) bool {
+		switch d {
+		case "block", "list-item", "flow-root", "table", "flex", "grid":
+			return true
+		case "inline-table", "table-caption":
+			// nothing inside a running box has been through the table fix-up: a bare (inline) table box
+			// or caption box is there, and webrender classes both as block-level
+			return true
+		}
+		return false
+	}
+	for _, p := range []*Pseudo{e.n.Before, e.n.After} {
+		if pseudoShown(e, p, m.rootNone) && p.Float == "" && blockish(pseudoDisplay(p)) {
+			return true
+		}
+	}
+	for _, k := range m.list {
+		if k.parent != e || !k.shown || isOutOfFlow(k.n) || k.footnote {
+			continue
+		}
+		// (a running block-level child is out of flow; a running inline child is descended into like
+		// any inline box -- the same missing test)
+		if (blockish(k.cd) && !k.running) || (kindForDisplay(k.cd) == kInline && !k.replaced && m.blockInInline(k)) {
+			return true
+		}
+	}
+	return false
 }
